@@ -19,6 +19,9 @@ class FakeTransport(asyncio.Transport):
         self.aborted = False
         self.proto = None
         self.on_write = None
+        self.on_lost = None
+        self.reading = True
+        self.on_resume_reading = None
 
     def get_extra_info(self, name, default=None):
         return ('1.2.3.4', 5) if name == 'peername' else default
@@ -31,6 +34,8 @@ class FakeTransport(asyncio.Transport):
     def _lost(self):
         if not self.closing:
             self.closing = True
+            if self.on_lost:
+                self.on_lost()
             asyncio.get_event_loop().call_soon(self.proto.connection_lost, None)
 
     def close(self):
@@ -44,10 +49,12 @@ class FakeTransport(asyncio.Transport):
         return self.closing
 
     def pause_reading(self):
-        pass
+        self.reading = False
 
     def resume_reading(self):
-        pass
+        self.reading = True
+        if self.on_resume_reading:
+            self.on_resume_reading()
 
 
 class VTime:
